@@ -14,7 +14,7 @@ import z3
 import neuropixel
 import spikeglx
 from pyvc.api import harness, bounded, property_meta, run_function
-from pyvc.core import SV, term, fresh_name
+from pyvc.core import SV, term, fresh_name, Unsupported
 from pyvc import arrays as A, fsmodel
 from pyvc.interp import SObj
 from contracts import np2common as N, C17, C03
@@ -51,6 +51,8 @@ def h_lf(H):
         it.ctx.oblige("lf.window_start_multiple_of_12", Yf(j) % 12 == 0, "lemma", "window starts are multiples of the decimation ratio, so the decimation phase is the same in every window")
         fl = getattr(it.ctx, "filt_log", [])
         okf = len(fl) == 1
+        if not okf:
+            raise Unsupported(f"cannot identify the low-pass filter call of extract_lfp (found {len(fl)})")
         it.ctx.oblige("lf.one_filter_call", z3.BoolVal(okf), "post")
         L = Yl(j) - Yf(j)
         if okf:
